@@ -500,7 +500,9 @@ def run_objective(case, ctx: Ctx):
     tq = qf_tol(max(blk.kappa, VO.cond(Sq)), r["kernel"], min_gap(Xb, T(r["Z"], dtype=F64)))
     tol_ll = tq * scale_of(mean, var) * amp + qtol / B + 1e-12
     tol_kl = qf_tol(max(kkl, VO.cond(Sq)), r["kernel"], 1.0) * scale_of(kl) * beta / N
-    tol_rest = 1e-12 * (1.0 + abs(float(log_prior)) / N + abs(added))
+    # priors: the parameter itself is only known to the setter round trip (torch's softplus is the identity above 20 although
+    # softplus(x) - x is still 2e-9 there), and a narrow prior far from the value amplifies that: 3e-9 relative on the prior term
+    tol_rest = 1e-12 * (1.0 + abs(added)) + 3e-9 * abs(float(log_prior)) / N
 
     model, lik, mll = build_objective(ctx, case, r, VO.encode(dist, m, Sq), objective, N, beta, case["combine"], case.get("gamma"))
     with ctx.observing("objective"):
